@@ -86,6 +86,26 @@ def random_cubical(rng):
     return {c: cells[c] for c in keep}
 
 
+def random_cw(rng):
+    """a small CW complex with cells whose boundary is empty in positive dimension (loops, spheres, torus-like 2-cells) or a
+    multiple of a loop (degree-2 attachment: torsion over odd characteristic, empty boundary over Z2)"""
+    cells = {}; nv = rng.randrange(1, 4)
+    for i in range(nv): cells[('v', i)] = (0, [])
+    loops = []
+    for i in range(rng.randrange(1, 4)):
+        if nv >= 2 and rng.random() < 0.5:
+            u, v = rng.sample(range(nv), 2); cells[('e', i)] = (1, [(('v', u), -1), (('v', v), 1)])
+        else:
+            cells[('l', i)] = (1, []); loops.append(('l', i))
+    for i in range(rng.randrange(0, 3)):
+        r = rng.random()
+        if r < 0.4 or not loops: cells[('f', i)] = (2, [])
+        elif r < 0.7: cells[('f', i)] = (2, [(rng.choice(loops), rng.choice([2, -2, 1, -1]))])
+        else: cells[('f', i)] = (2, [(l, rng.choice([1, -1])) for l in rng.sample(loops, min(len(loops), 2))])
+    if rng.random() < 0.3: cells[('s', 0)] = (3, [])
+    return cells
+
+
 def linear_extension(rng, cells):
     remaining = set(cells); placed = []; done = set()
     while remaining:
@@ -125,7 +145,8 @@ def gen_case(rng, caps, p=2, want_vine=False, want_rep=False, custom_ids=False, 
     if insert_after_swap is None: insert_after_swap = caps.get('flav') != 2
     removed_middle = False      # identifier-indexed boundary matrices hand out a colliding default identifier after such a removal (known finding)
     swapped = False
-    cells = random_cubical(rng) if rng.random() < 0.25 else random_simplicial(rng)
+    r0 = rng.random()
+    cells = random_cw(rng) if r0 < 0.12 else random_cubical(rng) if r0 < 0.35 else random_simplicial(rng)
     order = linear_extension(rng, cells)
     if len(order) > 26: order = order[:26]
     ids = {}; nxt = 0
